@@ -9,6 +9,8 @@
 (*   - the run does not show the value its own arguments demand (ProbeSeesItsArguments of     *)
 (*     Session.tla, checked on the recorded observation instead of the model variable), or    *)
 (*   - an argument object changed between call and return.                                    *)
+(* (hdr.relational = TRUE restricts the walk to the first kind: used to validate the harness  *)
+(* itself - a forked child against a brand-new interpreter.)                                  *)
 (* The result classes (exception, orders, trades, metrics, balances ...) are only named when   *)
 (* no behavioural root class explains the difference.  The verdict also says whether the set   *)
 (* of flagged root classes and the outcomes of the earlier calls are exactly what the          *)
@@ -98,6 +100,12 @@ Shape(c) == IF Len(Hist) = 0 THEN "fresh-process"
                  \o (IF c = "driver" THEN (IF OtherEx THEN "other-exchange-name" ELSE "same-exchange")
                      ELSE (IF SameEx THEN "same-exchange" ELSE "other-exchange-name"))
 
+SeqToSet(s) == {s[i] : i \in DOMAIN s}
+\* a known defect explains a flagged class only for the histories for which the as-is variant of Session.tla
+\* predicts it; anything else is named differently (and so can never hide behind a listed finding)
+Label(c) == c \o ":" \o Shape(c) \o
+            (IF T.hdr.has_pred /\ c \in Modelled /\ c \notin SeqToSet(T.hdr.pred_stale)
+             THEN ":not-predicted-by-the-as-is-model" ELSE "")
 IsRoot(c) == \E i \in DOMAIN Root : Root[i] = c
 Explained == flagged \cap Behavioural # {}
 
@@ -108,17 +116,16 @@ Add(v, c) == IF v = "" THEN c ELSE v \o "|" \o c
 Step ==
   /\ l <= Len(All)
   /\ LET c == All[l]
-         hit == IF IsRoot(c) THEN Differs(c) \/ Unseen(A, c)
+         hit == IF IsRoot(c) THEN Differs(c) \/ (~T.hdr.relational /\ Unseen(A, c))
                 ELSE ~Explained /\ Differs(c) /\ ~(\E k \in 1..(l - 1) : ~IsRoot(All[k]) /\ All[k] \in flagged)
-         fhit == IsRoot(c) /\ Unseen(F, c)
+         fhit == IsRoot(c) /\ ~T.hdr.relational /\ Unseen(F, c)
      IN /\ flagged' = IF hit THEN flagged \cup {c} ELSE flagged
         /\ freshFlagged' = IF fhit THEN freshFlagged \cup {c} ELSE freshFlagged
-        /\ verdict' = IF hit THEN Add(verdict, c \o ":" \o Shape(c)) ELSE verdict
+        /\ verdict' = IF hit THEN Add(verdict, Label(c)) ELSE verdict
   /\ l' = l + 1 /\ UNCHANGED tid
 Spec == Init /\ [][Step]_vars
 
 \* ---- does the as-is variant of Session.tla predict exactly this?  (calibration of the model) -----
-SeqToSet(s) == {s[i] : i \in DOMAIN s}
 Outcome(x) == IF x = "none" THEN "none" ELSE "exc"
 ModelAgrees ==
   IF ~T.hdr.has_pred THEN "n/a"
